@@ -39,6 +39,9 @@ type call struct {
 	Exit    int64  `json:"exit"`
 	Class   string `json:"class"` // nil | joberr | ctxerr | othererr | panic-own | panic-other
 	Handle  string `json:"handle,omitempty"` // chain scenarios: which wrapper of the chain Execute was called on
+	Origin  string `json:"ctx_origin,omitempty"` // escaped-context scenarios: where the context passed to Execute comes from
+	base    context.Context                     // context to build this call's context from (nil: Background)
+	gotCtx  context.Context                     // the context the underlying job received
 	NsRun   int64  `json:"ns_run,omitempty"`
 	hold    chan struct{}
 	entered chan struct{}
@@ -70,6 +73,7 @@ func (u *under) Execute(ctx context.Context) error {
 		}
 	}
 	u.runs.Add(1)
+	c.gotCtx = ctx
 	c.Entered = true
 	c.Enter = tick()
 	t0 := time.Now()
@@ -119,7 +123,11 @@ func busyJob() (quartz.Job, func()) {
 
 // invoke performs one Execute call and classifies what came back.
 func invoke(iso quartz.Job, c *call) {
-	ctx := context.WithValue(context.Background(), ctxKey{}, c)
+	base := c.base
+	if base == nil {
+		base = context.Background()
+	}
+	ctx := context.WithValue(base, ctxKey{}, c)
 	switch c.Ctx {
 	case "cancelled":
 		var cancel context.CancelFunc
@@ -303,6 +311,7 @@ func isolatedHold() {
 			"max_inflight": ru.maxInflight.Load()})
 	}
 	isolatedHandles()
+	isolatedEscaped()
 }
 
 // isolatedHandles: an isolated job wrapped a second and a third time -- h0 = NewIsolatedJob(job),
@@ -363,6 +372,115 @@ func isolatedHandles() {
 			res["max_inflight"] = u.maxInflight.Load()
 			emit(res)
 		}
+	}
+}
+
+// isolatedEscaped: contexts that ESCAPED from the wrapped job -- the ctx argument of a finished
+// execution, the ctx argument of the execution currently in progress (handed to another goroutine),
+// and contexts derived from them (WithValue / WithCancel / WithTimeout) -- are used for calls while an
+// execution is in flight: such a call is a call like any other (error, job not run); after the holder
+// has returned a call with each of these contexts must be admitted.
+func isolatedEscaped() {
+	type escKey struct{}
+	for _, o := range []string{"ok", "panic"} {
+		u := &under{}
+		iso := job.NewIsolatedJob(u)
+		res := map[string]any{"scenario": "escaped", "outcome": o}
+		early := &call{G: 0, I: 0, Dur: "0", Outcome: "ok"}
+		invoke(iso, early) // a finished execution; the job kept its ctx
+		h := &call{G: 0, I: 1, Dur: "hold", Outcome: o, hold: make(chan struct{}), entered: make(chan struct{})}
+		done := make(chan struct{})
+		go func() { defer close(done); invoke(iso, h) }()
+		select {
+		case <-h.entered:
+		case <-time.After(30 * time.Second):
+			res["error"] = "holder never entered the job"
+			emit(res)
+			continue
+		}
+		if early.gotCtx == nil || h.gotCtx == nil {
+			res["error"] = "the underlying job did not run for the preparatory calls"
+			close(h.hold)
+			<-done
+			emit(res)
+			continue
+		}
+		var cancels []context.CancelFunc
+		mk := func() []struct {
+			origin string
+			ctx    context.Context
+		} {
+			var out []struct {
+				origin string
+				ctx    context.Context
+			}
+			for _, src := range []struct {
+				name string
+				ctx  context.Context
+			}{{"the ctx argument of a FINISHED execution", early.gotCtx}, {"the ctx argument of the execution IN PROGRESS", h.gotCtx}} {
+				c1, cancel1 := context.WithCancel(src.ctx)
+				c2, cancel2 := context.WithTimeout(src.ctx, time.Hour)
+				cancels = append(cancels, cancel1, cancel2)
+				out = append(out,
+					struct {
+						origin string
+						ctx    context.Context
+					}{src.name, src.ctx},
+					struct {
+						origin string
+						ctx    context.Context
+					}{"context.WithValue(" + src.name + ")", context.WithValue(src.ctx, escKey{}, 1)},
+					struct {
+						origin string
+						ctx    context.Context
+					}{"context.WithCancel(" + src.name + ")", c1},
+					struct {
+						origin string
+						ctx    context.Context
+					}{"context.WithTimeout(" + src.name + ", 1h)", c2})
+			}
+			out = append(out, struct {
+				origin string
+				ctx    context.Context
+			}{"context.Background() (control)", context.Background()})
+			return out
+		}
+		var during []*call
+		blocked := false
+		for i, e := range mk() {
+			c := &call{G: 1, I: i, Dur: "0", Outcome: "ok", Origin: e.origin, base: e.ctx}
+			fin := make(chan struct{})
+			go func() { defer close(fin); invoke(iso, c) }()
+			select {
+			case <-fin:
+				during = append(during, c)
+			case <-time.After(20 * time.Second):
+				blocked = true
+			}
+			if blocked {
+				break
+			}
+		}
+		close(h.hold)
+		select {
+		case <-done:
+		case <-time.After(30 * time.Second):
+			res["error"] = "holder never returned"
+		}
+		var fresh []*call
+		if res["error"] == nil && !blocked {
+			for i, e := range mk() {
+				c := &call{G: 2, I: i, Dur: "0", Outcome: "ok", Origin: e.origin, base: e.ctx}
+				invoke(iso, c)
+				fresh = append(fresh, c)
+			}
+		}
+		for _, cancel := range cancels {
+			cancel()
+		}
+		res["holder"], res["during"], res["blocked"], res["fresh"] = h, during, blocked, fresh
+		res["max_inflight"] = u.maxInflight.Load()
+		emit(res)
 	}
 }
 
